@@ -256,11 +256,20 @@ pub fn gen_handshake(r: &mut Rng) -> Handshake {
 // values
 
 pub fn int_edge(r: &mut Rng, lo: i128, hi: i128) -> i128 {
-    let pickv = match r.weighted(&[12, 12, 10, 10, 26, 30]) {
+    let pickv = match r.weighted(&[12, 12, 10, 10, 26, 30, 14]) {
         0 => lo,
         1 => hi,
         2 => 0,
         3 => *r.pick(&[-1i128, 1, -2, 2, 127, 128, 255, 256, -128, -129]),
+        6 => {
+            // decimal cliffs: 10^k - 1, 10^k, 10^k + 1 and their neighbours with all-nine or
+            // one-zero digit strings (where the number of decimal digits changes)
+            let k = 1 + r.below(19) as u32;
+            let p = 10i128.pow(k);
+            let d = *r.pick(&[-2i128, -1, -1, 0, 1]);
+            let s = if r.coin() { 1 } else { -1 };
+            s * (p + d)
+        }
         4 => {
             let k = r.below(64) as u32;
             let p = 1i128 << k;
